@@ -226,3 +226,44 @@ def contains(node: ast.AST, pred) -> bool:
 
 def find_stmt(fnode, pred) -> List[ast.stmt]:
     return [n for n in walk_local(fnode) if isinstance(n, ast.stmt) and pred(n)]
+
+
+def optional_params(fnode):
+    """names of parameters whose default is the constant None"""
+    a = fnode.args
+    pos = a.posonlyargs + a.args
+    defaults = [None] * (len(pos) - len(a.defaults)) + list(a.defaults) + list(a.kw_defaults)
+    return {x.arg for x, d in zip(pos + a.kwonlyargs, defaults) if isinstance(d, ast.Constant) and d.value is None}
+
+
+def truthiness_uses(fnode, names):
+    """Name nodes (from `names`) evaluated for truth: if/while/assert/conditional-expression tests, comprehension
+    filters, `not x`, and every operand of and/or except the last."""
+    out = []
+
+    def boolctx(e):
+        if isinstance(e, ast.Name) and e.id in names:
+            out.append(e)
+        elif isinstance(e, ast.UnaryOp) and isinstance(e.op, ast.Not):
+            boolctx(e.operand)
+        elif isinstance(e, ast.BoolOp):
+            for v in e.values:
+                boolctx(v)
+
+    for n in walk_local(fnode):
+        if isinstance(n, (ast.If, ast.While, ast.IfExp, ast.Assert)):
+            boolctx(n.test)
+        elif isinstance(n, ast.BoolOp):
+            for v in n.values[:-1]:
+                boolctx(v)
+        elif isinstance(n, ast.comprehension):
+            for i in n.ifs:
+                boolctx(i)
+        elif isinstance(n, ast.UnaryOp) and isinstance(n.op, ast.Not):
+            boolctx(n.operand)
+    seen, uniq = set(), []
+    for e in out:
+        if id(e) not in seen:
+            seen.add(id(e))
+            uniq.append(e)
+    return uniq
